@@ -2720,6 +2720,12 @@ def groupby_reduce(
                 "along a single axis or when reducing across all dimensions of `by`."
             )
 
+    if _is_arg_reduction(func) and has_dask and nax != 1 and method != "blockwise":
+        raise NotImplementedError(
+            "For dask arrays: arg-reductions are only supported along a single axis, "
+            "or with method='blockwise' when every group is contained in a single block."
+        )
+
     is_npdatetime = array.dtype.kind in "Mm"
     is_cftime = _contains_cftime_datetimes(array)
     requires_numeric = (
